@@ -808,7 +808,39 @@ def scen_selfread(rng):
     return {'tree': [], 'funcs': funcs, 'steps': steps}
 
 
-SCENARIOS = [scen_nested_failure, scen_swap, scen_stale_dir, scen_dups, scen_versions, scen_reads, scen_identity, scen_foreign_swap, scen_sibling_failure, scen_todir, scen_selfread, scen_file_becomes_parent, scen_olddir_becomes_target, scen_prefix_siblings, scen_overlay_order]
+def scen_nested_reuse(rng):
+    """a recorded subbuild whose outputs lie at several depths of nesting (inside an inner subbuild or an inner
+    build_file, and next to it) in different new directories; the builds after the first are unchanged, so the whole
+    subtree is re-applied from the cache - directory by directory, which is where an injected OSError (C14) has to
+    unwind what the nested records had already reserved.  The root function catches."""
+    d = rng.choice(NAMES)
+    names = rng.sample(NAMES + ['ab', 'k'], 3)
+    first = '%s/%s/%s' % (d, names[0], rng.choice(['o', 'deep/o']))
+    second = '%s/%s/o' % (d, names[1])
+    third = '%s/%s/o' % (d, names[2])
+    inner_is_bf = rng.random() < 0.35
+    inner = _bf('%s/inner' % d, 2, catch=False) if inner_is_bf else _sb(2, catch=False)
+    outer = [inner, _bf(second, 4, catch=False, cmp_=rng.choice('MH'))]
+    if rng.random() < 0.5:
+        outer.append(_bf(third, 4, 1, catch=False))
+    if rng.random() < 0.3:
+        outer.reverse()
+    funcs = [
+        _fn('f0', _probe(rng, [d, first], 1) + [_sb(1, catch=True)] + _probe(rng, [d, '%s/%s' % (d, names[0]), '%s/%s' % (d, names[1]), first, second], 3)),
+        _fn('f1', outer),
+        _fn('f2', [_bf(first, 3, catch=False)] + ([['w', None]] if inner_is_bf else [])),
+        _fn('f3', [['w', None]]),
+        _fn('f4', [['w', None]]),
+    ]
+    funcs.append(_fn('rootfail', funcs[0]['stmts'] + [['raise', 99]]))
+    tree = [[d, 'dir']] if rng.random() < 0.5 else []
+    steps = [_build(), _build(), _build()]
+    if rng.random() < 0.3:
+        steps.append(['clean', 'n'])
+    return {'tree': tree, 'funcs': funcs, 'steps': steps}
+
+
+SCENARIOS = [scen_nested_failure, scen_swap, scen_stale_dir, scen_dups, scen_versions, scen_reads, scen_identity, scen_foreign_swap, scen_sibling_failure, scen_todir, scen_selfread, scen_file_becomes_parent, scen_olddir_becomes_target, scen_prefix_siblings, scen_overlay_order, scen_nested_reuse]
 
 
 def gen_scenario_cases(seed, per_family, dirsize=4096, families=SCENARIOS):
